@@ -5,6 +5,50 @@ import PepitModel.World
 
 namespace Pepit
 
+/-! ## the formulas of the steps as pure functions of decomposition dictionaries
+
+Each is the literal composition of operator overloads the step performs; the monadic steps below
+build their objects with them, and `Props/C08` proves what they denote. -/
+namespace StepForm
+
+/-- `x0 - gamma * g` (proximal, inexact gradient, Bregman, ε-subgradient steps) -/
+def gradStep (x0 : PDict) (γ : Coef) (g : PDict) : PDict := PDict.sub x0 (PDict.smul γ g)
+
+/-- inexact gradient: `(gx0 - dx0) ** 2 - epsilon ** 2 [* gx0 ** 2]`, the left side of `… <= 0` -/
+def inexactGradient (gx0 dx0 : PDict) (ε : Coef) (relative : Bool) : EDict :=
+  let sq := PDict.ip (PDict.sub gx0 dx0) (PDict.sub gx0 dx0)
+  if relative then EDict.sub sq (EDict.smul (ε * ε) (PDict.ip gx0 gx0)) else EDict.subConst sq (ε * ε)
+
+/-- exact line search: `(x - x0) * gx` and `d * gx` (each `== 0`) -/
+def linesearchMain (x x0 gx : PDict) : EDict := PDict.ip (PDict.sub x x0) gx
+def linesearchDir (d gx : PDict) : EDict := PDict.ip d gx
+
+/-- ε-subgradient: `f0 + (g0 * y - fy) - g0 * x0`, the left side of `… <= epsilon` -/
+def epsSubgradient (f0 : EDict) (g0 y : PDict) (fy : EDict) (x0 : PDict) : EDict :=
+  EDict.sub (EDict.add f0 (EDict.sub (PDict.ip g0 y) fy)) (PDict.ip g0 x0)
+
+/-- `eps_sub = fx - fw - v * (x - w)` -/
+def epsSub (fx fw : EDict) (v x w : PDict) : EDict := EDict.sub (EDict.sub fx fw) (PDict.ip v (PDict.sub x w))
+
+/-- PD_gapI: `e = x - x0 + gamma * v`, left side `e ** 2 / 2 + gamma * eps_sub` -/
+def gapIe (x x0 : PDict) (γ : Coef) (v : PDict) : PDict := PDict.add (PDict.sub x x0) (PDict.smul γ v)
+def gapI (x x0 : PDict) (γ : Coef) (v w : PDict) (fx fw : EDict) : EDict :=
+  let e := gapIe x x0 γ v
+  EDict.add (EDict.div (PDict.ip e e) 2) (EDict.smul γ (epsSub fx fw v x w))
+
+/-- PD_gapII: `x = x0 - gamma * gx + e`, left side `e ** 2 / 2` -/
+def gapIIx (x0 : PDict) (γ : Coef) (gx e : PDict) : PDict := PDict.add (PDict.sub x0 (PDict.smul γ gx)) e
+def gapII (e : PDict) : EDict := EDict.div (PDict.ip e e) 2
+
+/-- PD_gapIII: `v = (x0 - x) / gamma`, left side `gamma * eps_sub` -/
+def gapIIIv (x0 x : PDict) (γ : Coef) : PDict := PDict.div (PDict.sub x0 x) γ
+def gapIII (γ : Coef) (v x w : PDict) (fx fw : EDict) : EDict := EDict.smul γ (epsSub fx fw v x w)
+
+end StepForm
+
+def dP (h : Nat) : M PDict := do pure (← getP h).d
+def dE (h : Nat) : M EDict := do pure (← getE h).d
+
 def nameOrNone : Option String → String
   | some n => n
   | Option.none => "None"
@@ -17,8 +61,7 @@ def addFunCons (f c : Nat) : M Unit := do
 def proximalStep (x0 f : Nat) (γ : Coef) : M (Nat × Nat × Nat) := do
   let gx ← newLeafP
   let fx ← newLeafE
-  let ggx ← ptSmul γ gx
-  let x ← ptSub x0 ggx
+  let x ← mkP (StepForm.gradStep (← dP x0) γ (← dP gx))
   addPoint f (Triple.mk3 x gx fx)
   pure (x, gx, fx)
 
@@ -26,33 +69,25 @@ def proximalStep (x0 f : Nat) (γ : Coef) : M (Nat × Nat × Nat) := do
 def inexactGradientStep (x0 f : Nat) (γ ε : Coef) (relative : Bool) : M (Nat × Nat × Nat) := do
   let (gx0, fx0) ← oracle f x0
   let dx0 ← newLeafP
-  let diff ← ptSub gx0 dx0
-  let sq ← ptIp diff diff
-  let lhs ← if relative then do
-      let g2 ← ptIp gx0 gx0
-      let eg2 ← exSmul (ε * ε) g2
-      exSub sq eg2
-    else exSubConst sq (ε * ε)
+  let lhs ← mkE (StepForm.inexactGradient (← dP gx0) (← dP dx0) ε relative)
   let c ← consLeConst lhs 0
   setConsName c s!"inexact_gradient_step({nameOrNone (← getF f).name})_on_{nameOrNone (← getP x0).name}"
   addFunCons f c
-  let gd ← ptSmul γ dx0
-  let x ← ptSub x0 gd
+  let x ← mkP (StepForm.gradStep (← dP x0) γ (← dP dx0))
   pure (x, dx0, fx0)
 
 /-- `exact_linesearch_step(x0, f, directions)` -/
 def exactLinesearchStep (x0 f : Nat) (dirs : List Nat) : M (Nat × Nat × Nat) := do
   let x ← newLeafP
   let (gx, fx) ← oracle f x
-  let d0 ← ptSub x x0
-  let e0 ← ptIp d0 gx
+  let e0 ← mkE (StepForm.linesearchMain (← dP x) (← dP x0) (← dP gx))
   let c0 ← consEqConst e0 0
   let fn := nameOrNone (← getF f).name
   let xn := nameOrNone (← getP x0).name
   setConsName c0 s!"exact_linesearch({fn})_on_{xn}"
   addFunCons f c0
   for d in dirs do
-    let e ← ptIp d gx
+    let e ← mkE (StepForm.linesearchDir (← dP d) (← dP gx))
     let c ← consEqConst e 0
     setConsName c s!"exact_linesearch({fn})_on_{xn}_in_direction_{nameOrNone (← getP d).name}"
     addFunCons f c
@@ -70,8 +105,7 @@ def linearOptimizationStep (dir ind : Nat) : M (Nat × Nat × Nat) := do
 def bregmanGradientStep (gx0 sx0 h : Nat) (γ : Coef) : M (Nat × Nat × Nat) := do
   let x ← newLeafP
   let hx ← newLeafE
-  let gg ← ptSmul γ gx0
-  let sx ← ptSub sx0 gg
+  let sx ← mkP (StepForm.gradStep (← dP sx0) γ (← dP gx0))
   addPoint h (Triple.mk3 x sx hx)
   pure (x, sx, hx)
 
@@ -80,8 +114,7 @@ def bregmanProximalStep (sx0 h f : Nat) (γ : Coef) : M (Nat × Nat × Nat × Na
   let x ← newLeafP
   let gx ← newLeafP
   let fx ← newLeafE
-  let gg ← ptSmul γ gx
-  let sx ← ptSub sx0 gg
+  let sx ← mkP (StepForm.gradStep (← dP sx0) γ (← dP gx))
   let hx ← newLeafE
   addPoint f (Triple.mk3 x gx fx)
   addPoint h (Triple.mk3 x sx hx)
@@ -92,16 +125,11 @@ def epsilonSubgradientStep (x0 f : Nat) (γ : Coef) : M (Nat × Nat × Nat × Na
   let g0 ← newLeafP
   let f0 ← value f x0
   let eps ← newLeafE
-  let gg ← ptSmul γ g0
-  let x ← ptSub x0 gg
+  let x ← mkP (StepForm.gradStep (← dP x0) γ (← dP g0))
   let y ← newLeafP
   let fy ← newLeafE
   addPoint f (Triple.mk3 y g0 fy)
-  let g0y ← ptIp g0 y
-  let fstar ← exSub g0y fy
-  let s1 ← exAdd f0 fstar
-  let g0x0 ← ptIp g0 x0
-  let lhs ← exSub s1 g0x0
+  let lhs ← mkE (StepForm.epsSubgradient (← dE f0) (← dP g0) (← dP y) (← dE fy) (← dP x0))
   let c ← consLe lhs eps
   setConsName c s!"epsilon_subgradient({nameOrNone (← getF f).name})_on_{nameOrNone (← getP x0).name}"
   addFunCons f c
@@ -125,31 +153,18 @@ def inexactProximalStep (x0 f : Nat) (γ : Coef) (opt : Nat) : M (Nat × Nat × 
     let fx ← newLeafE
     addPoint f (Triple.mk3 x gx fx)
     let epsVar ← newLeafE
-    let d ← ptSub x x0
-    let gv ← ptSmul γ v
-    let e ← ptAdd d gv
-    let fxfw ← exSub fx fw
-    let xw ← ptSub x w
-    let vxw ← ptIp v xw
-    let epsSub ← exSub fxfw vxw
-    let e2 ← ptIp e e
-    let e2h ← exDiv e2 2
-    let ge ← exSmul γ epsSub
-    let lhs ← exAdd e2h ge
+    let lhs ← mkE (StepForm.gapI (← dP x) (← dP x0) γ (← dP v) (← dP w) (← dE fx) (← dE fw))
     let c ← consLe lhs epsVar
     finish c
     pure (x, gx, fx, w, v, fw, epsVar)
   | 2 =>
     let e ← newLeafP
     let gx ← newLeafP
-    let ggx ← ptSmul γ gx
-    let t ← ptSub x0 ggx
-    let x ← ptAdd t e
+    let x ← mkP (StepForm.gapIIx (← dP x0) γ (← dP gx) (← dP e))
     let fx ← newLeafE
     addPoint f (Triple.mk3 x gx fx)
     let epsVar ← newLeafE
-    let e2 ← ptIp e e
-    let e2h ← exDiv e2 2
+    let e2h ← mkE (StepForm.gapII (← dP e))
     let c ← consLe e2h epsVar
     finish c
     pure (x, gx, fx, x, gx, fx, epsVar)
@@ -157,18 +172,14 @@ def inexactProximalStep (x0 f : Nat) (γ : Coef) (opt : Nat) : M (Nat × Nat × 
     let x ← newLeafP
     let gx ← newLeafP
     let w ← newLeafP
-    let d ← ptSub x0 x
-    let v ← ptDiv d γ
+    if γ == 0 then throw .divZero
+    let v ← mkP (StepForm.gapIIIv (← dP x0) (← dP x) γ)
     let fw ← newLeafE
     let fx ← newLeafE
     addPoint f (Triple.mk3 x gx fx)
     addPoint f (Triple.mk3 w v fw)
     let epsVar ← newLeafE
-    let fxfw ← exSub fx fw
-    let xw ← ptSub x w
-    let vxw ← ptIp v xw
-    let epsSub ← exSub fxfw vxw
-    let lhs ← exSmul γ epsSub
+    let lhs ← mkE (StepForm.gapIII γ (← dP v) (← dP x) (← dP w) (← dE fx) (← dE fw))
     let c ← consLe lhs epsVar
     finish c
     pure (x, gx, fx, w, v, fw, epsVar)
